@@ -157,6 +157,11 @@ def sweep(ctx, n):
                 else:
                     err = abs(tot - expect) / (mag + 1e-300)
                 tol = 1e-6 if kind != "circ-magnet" else 2e-2
+                if kind == "circ-magnet":
+                    # a loop through a magnet crosses its faces (H jumps) and may pass close to an edge (H diverges): the Gauss-Legendre
+                    # sum converges slowly there; the tolerance follows the difference between two node counts
+                    tot2, mag2 = circulation(lambda p: src.getH(p), c, rad, rot, 2 * ng + 1)
+                    tol = max(tol, 3.0 * abs(tot2 - tot) / (mag + 1e-300))
                 key = kind
             done += 1
             worst[key] = max(worst.get(key, 0.0), float(err))
